@@ -31,7 +31,8 @@ ASSUMPTIONS = ["project is checked for the rank id only when the caller passes r
                "format U ranks are not split / iterated here: formats are carried attributes in this check"]
 
 OPS = ["construct", "splitUniform", "splitEqual", "splitNonUniform", "splitUnEqual", "truediv", "floordiv", "swizzle",
-       "swap", "flatten", "merge", "flatten_unflatten", "updateCoords", "updatePayloads", "deepcopy", "yaml"]
+       "swap", "flatten", "merge", "flatten_unflatten", "flatten_twice", "updateCoords", "updatePayloads", "deepcopy",
+       "yaml"]
 
 
 @st.composite
@@ -230,6 +231,25 @@ def check(case, rec):
             where = f"unflatten of {where}"
             nf2 = fmts[:dd] + ["C"] * (levels + 1) + fmts[dd + levels + 1:]
             expect(r, where, ids=ids, shape=ashape if auth else "skip", default=default, fmts=nf2, mutable=mut)
+    elif op == "flatten_twice":
+        # flatten, then flatten the result again at the rank that is already a list of ids
+        if d < 3:
+            return
+        dd = sel[0] % (d - 2)
+        f1 = t.flattenRanks(depth=dd, levels=1, coord_style="tuple")
+        ids1 = copy.deepcopy(f1.getRankIds())
+        shape1 = copy.deepcopy(f1.getShape(authoritative=True))
+        r = f1.flattenRanks(depth=dd, levels=1, coord_style="tuple")
+        where = f"flatten(depth={dd}) twice"
+        if f1.getRankIds() != ids1 or f1.getShape(authoritative=True) != shape1:
+            raise Violation("operand-attrs", f"{where}: the second flatten changed its operand's rank ids / shape: "
+                            f"{ids1} -> {f1.getRankIds()}")
+        nid = ids[:dd] + [ids[dd:dd + 3]] + ids[dd + 3:]
+        ns = shape[:dd] + [tuple(shape[dd:dd + 3])] + shape[dd + 3:]
+        nf = fmts[:dd] + ["C"] + fmts[dd + 3:]
+        expect(r, where, ids=nid, shape=ns if auth else "skip", default=default, fmts=nf, mutable=mut)
+        back = f1.unflattenRanks(depth=dd, levels=1)
+        expect(back, f"unflatten of the first result after {where}", ids=ids)
     elif op == "updateCoords":
         # (a rank without a declared shape needs new_shape: the docstring's precondition)
         kw = {} if auth else {"new_shape": S}
